@@ -233,3 +233,39 @@ Proof.
   - rewrite skipn_length. lia.
   - rewrite nth_skipn_N. replace (rune_size s + (S i - rune_size s))%nat with (S i) by lia. assumption.
 Qed.
+
+Lemma boundary_firstn s k : boundary s k -> forall n, (k <= n)%nat -> boundary (firstn n s) k.
+Proof.
+  induction 1 as [|s k Hs Hb IH]; intros n Hn; [constructor|].
+  assert (1 <= rune_size s)%nat by now apply rune_size_pos.
+  assert (Hd : decode_rune (firstn n s) = decode_rune s) by (apply decode_rune_prefix; lia).
+  assert (Hr : rune_size (firstn n s) = rune_size s) by (unfold rune_size; now rewrite Hd).
+  rewrite <- Hr. apply boundary_step.
+  - destruct s; [congruence|]. destruct n; [lia|]. discriminate.
+  - rewrite Hr, skipn_firstn_comm. apply IH. lia.
+Qed.
+
+Lemma boundary_full s : boundary s (length s).
+Proof.
+  remember (length s) as n eqn:Hn. revert s Hn.
+  induction n as [n IH] using lt_wf_ind. intros s Hn.
+  destruct s as [|c t]; [subst; constructor|].
+  assert (Hs : c :: t <> []) by discriminate.
+  pose proof (rune_size_pos _ Hs). pose proof (rune_size_le (c :: t)).
+  replace n with (rune_size (c :: t) + (n - rune_size (c :: t)))%nat by lia.
+  apply boundary_step; [assumption|].
+  apply (IH (n - rune_size (c :: t))%nat); [lia|]. rewrite skipn_length. lia.
+Qed.
+
+(* every iteration of the range loop yields a decoded rune: its UTF-16 length is 1 or 2 *)
+Lemma range_from_utf16_pos s : forall skip pos,
+  Forall (fun p => (1 <= utf16_rune_len (snd p))%Z) (range_from s skip pos).
+Proof.
+  induction s as [|c t IH]; intros skip pos; [constructor|].
+  cbn [range_from]. destruct skip as [|k]; [|apply IH].
+  pose proof (utf16_rune_len_decode (c :: t)) as H.
+  destruct (decode_rune (c :: t)) as [r sz]. constructor; [exact H|apply IH].
+Qed.
+
+Lemma range_from_head s pos : s <> [] -> exists r rest, range_from s 0 pos = (pos, r) :: rest.
+Proof. intros H. rewrite range_from_unfold by assumption. eauto. Qed.
